@@ -1,5 +1,5 @@
 #!/bin/bash
 # Rebuild the repository's own build tree and run its unedited test suite (guard off).
-set -e
+set -e -o pipefail
 cmake --build /repo/_build -j16 > /tmp/repo_build.log 2>&1 || { tail -30 /tmp/repo_build.log; echo "BUILD FAILED"; exit 1; }
 ctest --test-dir /repo/_build -j8 --timeout 900 2>&1 | tail -5
